@@ -175,8 +175,37 @@ def _work(ctx: Ctx, item):
                 ctx.report("C17|process-dependent", f"hash {h} in this process, {g} in a fresh process (PYTHONHASHSEED=12345)", {"pgn": pgn, "payload_hex": hx, "probe": True})
 
 
+def _siblings(ctx: Ctx, item):
+    """All definitions of a multi-definition PGN decoded back to back on the same decoders from the same source (both orders):
+    the hash of a message must not depend on what the decoder saw before."""
+    pgns, = item
+    db = canboat.db()
+    for pgn in pgns:
+        ds = [d for d in db.by_pgn[pgn] if d.supported]
+        R = Runner(ctx)
+        for order in (ds, list(reversed(ds)), ds):
+            for d in order:
+                bp, bn, _ = gen.benign_payload(d)
+                target = db.select(d.pgn, bp)
+                if target is None:
+                    continue
+                for di, dec in enumerate(R.decs):
+                    m = R.decode(dec, d, bp, bn, 1, 255, 3)
+                    ctx.count()
+                    if m is None:
+                        continue
+                    ctx.nt((d.key, "sibling-sequence", di))
+                    case = {"definition": d.key, "payload_hex": bp.to_bytes(bn, "little").hex(), "relation": "sibling-sequence", "source": 1,
+                            "priority": 3, "destination": 255, "decoder": di, "siblings": [x.key for x in ds]}
+                    for b, w, c in R.observe(target, m, case):
+                        ctx.report(b + "|after-sibling", w, c)
+    ctx.klass("sibling_sequences")
+
+
 def run(ctx: Ctx):
     db = canboat.db()
+    multi = [pgn for pgn, ds in db.by_pgn.items() if len(ds) > 1]
+    pmap(ctx, _siblings, [([p],) for p in multi])
     keys = [d.key for d in db.defs if d.supported]
     n = 5 if ctx.quick else 400
     # definitions with primary keys first, spread over shards
@@ -192,6 +221,18 @@ def replay(ctx: Ctx, case):
     R = Runner(ctx)
     if case.get("probe"):
         return []
+    if case.get("siblings"):
+        out = []
+        for order in (case["siblings"], list(reversed(case["siblings"])), case["siblings"]):
+            for k in order:
+                d = db.by_key[k]
+                bp, bn, _ = gen.benign_payload(d)
+                target = db.select(d.pgn, bp)
+                for di, dec in enumerate(R.decs):
+                    m = R.decode(dec, d, bp, bn, 1, 255, 3)
+                    if m is not None and target is not None:
+                        out += [(b + "|after-sibling", w, c) for b, w, c in R.observe(target, m, dict(case, definition=k))]
+        return out
     out = []
     for c in ([case["other"]] if "other" in case else []) + [case]:
         d = db.by_key[c["definition"]]
